@@ -10,6 +10,7 @@ package main
 // paths, never inputs.
 
 import (
+	"go/types"
 	"fmt"
 	"os"
 	"regexp"
@@ -99,6 +100,7 @@ type harnessResult struct {
 }
 
 type executor struct {
+	timeType types.Type // time.Time (set by the time.After model)
 	sol       *solver
 	prefix    []decision
 	pos       int
